@@ -610,6 +610,19 @@ func ruleBoundsTable(c *Ctx, rule string) {
 				k, _ = call.Call.Args[0].(*ssa.Const)
 			}
 			if k == nil || k.Value == nil {
+				// the bound may come from a helper that maps the kind to its bounds: (min, max) := h(t.Kind())
+				if per, ok := c.boundsFromHelper(m, st.Val, ks); ok {
+					for kk, b := range per {
+						if b.present {
+							if which == "Schema.Minimum" {
+								mins[kk] = bound{b.val, c.pos(st)}
+							} else {
+								maxs[kk] = bound{b.val, c.pos(st)}
+							}
+						}
+					}
+					continue
+				}
 				c.R.Unknown(rule, which+":const:"+ks.String(), c.pos(st), "the bound is not a constant")
 				continue
 			}
@@ -1428,4 +1441,81 @@ func (c *Ctx) dependsOnIndexPath(v ssa.Value, depth int) bool {
 		return c.dependsOnIndexPath(x.Tuple, depth-1)
 	}
 	return false
+}
+
+type helperBound struct {
+	val     float64
+	present bool
+}
+
+// boundsFromHelper: v is a result of a helper called with the subject's kind; the helper switches on that kind and
+// returns, per kind, either nil or a fresh *float64 of a constant. Returns the bound per kind (for the kinds in ks).
+func (c *Ctx) boundsFromHelper(m *inferModel, v ssa.Value, ks KindSet) (map[int]helperBound, bool) {
+	var call *ssa.Call
+	idx := 0
+	switch x := v.(type) {
+	case *ssa.Extract:
+		call, _ = x.Tuple.(*ssa.Call)
+		idx = x.Index
+	case *ssa.Call:
+		call = x
+	}
+	if call == nil {
+		return nil, false
+	}
+	h := call.Call.StaticCallee()
+	if h == nil || !c.P.InPkg(h) || len(h.Blocks) == 0 {
+		return nil, false
+	}
+	// which parameter receives the kind of the subject type?
+	var kp *ssa.Parameter
+	for pi, a := range call.Call.Args {
+		if kc, ok := a.(*ssa.Call); ok && kc.Call.IsInvoke() && kc.Call.Method.Name() == "Kind" && m.subj[kc.Call.Value] && pi < len(h.Params) {
+			kp = h.Params[pi]
+		}
+	}
+	if kp == nil {
+		return nil, false
+	}
+	kf := &kindFlow{fn: h, subject: func(ssa.Value) bool { return false }, in: map[*ssa.BasicBlock]KindSet{}, reached: map[*ssa.BasicBlock]bool{}, entry: ks, hasEnt: true,
+		kindVal: func(x ssa.Value) bool { return x == kp }}
+	kf.solve()
+	out := map[int]helperBound{}
+	okAll := true
+	core.EachInstr(h, func(i ssa.Instruction) {
+		ret, ok := i.(*ssa.Return)
+		if !ok || idx >= len(ret.Results) {
+			return
+		}
+		rk := kf.At(ret)
+		var b helperBound
+		switch r := ret.Results[idx].(type) {
+		case *ssa.Const:
+			if !r.IsNil() {
+				okAll = false
+			}
+		case *ssa.Call:
+			if len(r.Call.Args) == 1 {
+				if k, isK := r.Call.Args[0].(*ssa.Const); isK && k.Value != nil {
+					fv, _ := constant.Float64Val(constant.ToFloat(k.Value))
+					b = helperBound{fv, true}
+				} else {
+					okAll = false
+				}
+			} else {
+				okAll = false
+			}
+		default:
+			okAll = false
+		}
+		for kk := 0; kk < nKinds; kk++ {
+			if rk&Kinds(kk) != 0 {
+				if prev, dup := out[kk]; dup && prev != b {
+					okAll = false
+				}
+				out[kk] = b
+			}
+		}
+	})
+	return out, okAll
 }
